@@ -12,10 +12,14 @@ EXTENDS MutualClose, Json, IOUtils, SequencesExt
 Tier == IOEnv.MCL_TIER
 Mags == IF IOEnv.MCL_MAGS = "n" THEN {"n"} ELSE IF IOEnv.MCL_MAGS = "n,g" THEN {"n", "g"} ELSE {"n", "g", "a"}
 
+\* two-deviation states the quick tier always includes: the counterparty's stale commitment is still
+\* held and the two current commitments disagree
+StaleStates == {[GoodState(d, p) EXCEPT !.hist = "updp", !.skew = k] : d \in {"out", "in"}, p \in {1, 2}, k \in {"2e", "2e1"}}
+
 \* (states, request distance) blocks: wide in one dimension, narrow in the other
 Blocks == IF Tier = "thorough"
           THEN << [S |-> AbsStates(2, Mags), k |-> 2] >>
-          ELSE << [S |-> AbsStates(1, Mags), k |-> 1],
+          ELSE << [S |-> AbsStates(1, Mags) \cup StaleStates, k |-> 1],
                   [S |-> {s \in AbsStates(1, Mags) : s.pol = 1 /\ s = [GoodState(s.dir, 1) EXCEPT !.mag = s.mag]},
                    k |-> 2] >>
 
